@@ -17,6 +17,9 @@ def run(ctx):
     if b:
         ctx.correspond(b, "TestVerifC08", "svdriver_c08", "c08",
                        env=_env({"VERIF_N": 150 if quick else 4000}), timeout=1500 if quick else 3000)
+        # concurrent callers: oracle-only stream (emits no op lines, so the model diff is empty)
+        ctx.correspond(b, "TestVerifC08Conc", "svdriver_c08", "c08conc",
+                       env=_env({"VERIF_N": 40 if quick else 800}), timeout=1500 if quick else 3000)
     return ctx.finish(
         level="proof",
         rule="real NewSnapshotter on a temporary root with a recording FileSystem whose Mount/Check/Unmount "
@@ -25,10 +28,17 @@ def run(ctx):
              "restart (after Close or as process death) over random parent graphs, sync and async removal; every call "
              "is compared impl-vs-model (result class, mount list, backend-call + crash-marker trace, snapshots/ "
              "listing, Walk) and the C08 clauses are evaluated on the implementation's own answers; a history is "
-             "distinct by its call/result shape",
+             "distinct by its call/result shape.  Concurrent callers (oracle only): inside an API call, at a "
+             "crash-point marker used as a deterministic sync point (create.tempdir/txcreate/renamed/committed, "
+             "prepare.mounted, commit.beforetx, prepare.targetcommitted, remove.txcommitted, cleanupdir.*), ONE other "
+             "call (Cleanup, Remove, Mounts, Walk, Stat, Prepare, View, Commit) is started in a second goroutine "
+             "with a bounded wait; 16 scripted Cleanup-vs-Prepare/View windows + random pairs; afterwards the "
+             "schedule-independent clauses are evaluated (every live snapshot has fs/work, handed-out mounts exist, "
+             "no unmount of a live snapshot, one final Cleanup leaves exactly the live ids)",
         assumptions=[
-            "sequential semantics: one snapshotter call in flight (bolt's single writer serialises the metadata "
-            "transactions of concurrent callers; the interleaved semantics is not modelled)",
+            "the Lean model and theorems are sequential: one snapshotter call in flight; that bolt's single "
+            "writer serialises the metadata transactions of concurrent callers (so that interleavings reduce to "
+            "sequences) is NOT proved but probed by the concurrent-callers stream on the implementation",
             "mkdir/rename/RemoveAll/bolt commit do not fail and are atomic",
             "an Unmount call ends the backend's mount whatever it returns (fs/fs.go drops the layer first)",
             "NoRestore is only configured while the backend kept its mounts (cmd/containerd-stargz-grpc/main.go); "
